@@ -225,6 +225,40 @@ Definition no_guard_fx (fx : fixes) (ops : list op) : bool :=
 
 Definition no_guard (ops : list op) : bool := no_guard_fx no_fix ops.
 
+(** ** The open findings C06-F1 / C06-F2, per source and with a reset
+
+    An update hit by C06-F1, or an accepted rule set with the C06-F2 shape, leaves
+    the order / the node flags of THAT source's rules in a state a fresh load would
+    not produce; deleting the rule set removes all of it.  [dirty ops]: the sources
+    in such a state after the history. *)
+
+Definition rm_src (s : nat) (l : list nat) : list nat := filter (fun t => negb (Nat.eqb t s)) l.
+
+Definition dirty1_step (S : sets) (o : op) (d : list nat) : list nat :=
+  match o with
+  | Update s ds => if spec_accepts S s ds && f1_step (get_set S s) ds then s :: d else d
+  | Delete s => rm_src s d
+  | _ => d
+  end.
+
+Definition dirty2_step (S : sets) (o : op) (d : list nat) : list nat :=
+  match o with
+  | Add s ds | Update s ds => if spec_accepts S s ds && f2_set ds then s :: d else d
+  | Delete s => rm_src s d
+  | Refused _ => d
+  end.
+
+Definition dirty_step (S : sets) (o : op) (d : list nat) : list nat :=
+  dirty2_step S o (dirty1_step S o d).
+
+Fixpoint dirty_from (S : sets) (d : list nat) (ops : list op) : list nat :=
+  match ops with
+  | [] => d
+  | o :: r => dirty_from (spec_step S o) (dirty_step S o d) r
+  end.
+
+Definition dirty (ops : list op) : list nat := dirty_from [] [] ops.
+
 (** the guards of the findings that are open in the tree as it is now (C06-F3, F4,
     F5 are repaired: fix: commits 2d9cd1f, 003095f, f6ce52b) *)
 Definition open_guards (ops : list op) : bool := guard_F1 ops || guard_F2 ops || guard_dupid ops.
